@@ -101,7 +101,7 @@ class Program:
                     walk(k.gotype, k.kids)
         walk(self.root, self.kids)
         if any(k.excl and 'Unsupported' in k.excl[0] for k in self.all_members()):
-            types.append('type Unsupported struct {\n\tZ complex128\n}\n')
+            types.append('type Unsupported struct {\n\tZ map[string]chan int\n}\n')
         return '\n'.join(out + types)
 
     def all_members(self):
@@ -288,6 +288,44 @@ class Program:
                     exclzero(k.gotype, k.kids)
         exclzero(self.root, self.kids)
         o.append('func vExclZeroRec(a vRec) bool { return vExclZero_%s(a) }\n' % self.root)
+        o.append('// exported hooks for the C14 pair package (excluded members may be unexported)\nfunc VExclZeroRec(a Rec) bool { return vExclZero_%s(a) }\n' % self.root)
+
+        def fillex(tname, kids):
+            L = ['func vFillExcl_%s(a *%s) {' % (tname, tname)]
+            for k in kids:
+                n = k.gotype if k.embedded else k.name
+                if k.excl is not None:
+                    t = k.excl[0]
+                    if t == 'int32':
+                        L.append('\ta.%s = vNondetI32()' % n)
+                    elif t == '*string':
+                        L.append('\t{ s := vFixedString(1); a.%s = &s }' % n)
+                    elif t == '[]byte':
+                        L.append('\ta.%s = []byte{vNondetU8()}' % n)
+                    elif t.startswith('map'):
+                        L.append('\ta.%s = map[string]int{"k": 1}' % n)
+                    elif t.startswith('struct{'):
+                        L.append('\ta.%s.Q = vNondetI32()' % n)
+                    elif t == 'interface{}':
+                        L.append('\ta.%s = 7' % n)
+                    elif t == '*Unsupported':
+                        L.append('\ta.%s = &Unsupported{}' % n)
+                    continue
+                if k.kids is None:
+                    continue
+                if k.rep == 'req':
+                    L.append('\tvFillExcl_%s(&a.%s)' % (k.gotype, n))
+                elif k.rep == 'opt':
+                    L.append('\tif a.%s != nil { vFillExcl_%s(a.%s) }' % (n, k.gotype, n))
+                else:
+                    L.append('\tfor i := range a.%s { vFillExcl_%s(&a.%s[i]) }' % (n, k.gotype, n))
+            L += ['}\n']
+            o.append('\n'.join(L))
+            for k in kids:
+                if k.kids is not None and k.excl is None:
+                    fillex(k.gotype, k.kids)
+        fillex(self.root, self.kids)
+        o.append('func VFillExcluded(a *Rec) { vFillExcl_%s(a) }\n' % self.root)
 
         # ---- mutate every reachable cell behind pointers and slices (C01 aliasing clause)
         def mutate(tname, kids):
@@ -531,3 +569,127 @@ def shape_canon(shape):
             return pre + 'L'
         return pre + '{' + ','.join(f(x) for x in m[2]) + '}'
     return '{' + ','.join(f(m) for m in shape) + '}'
+
+
+# -------------------------------------------------------------------- C14 decorations
+import copy
+
+EXCL_TYPES = ['int32', '*string', '[]byte', 'map[string]int', 'chan int', 'func(X int32) error', 'struct{ Q int32 }', 'interface{}', '*Unsupported']
+
+
+def _clone(kids):
+    out = []
+    for k in kids:
+        c = F(k.name, typ=k.typ, rep=k.rep, kids=_clone(k.kids) if k.kids is not None else None, tag=k.tag, embedded=k.embedded, excl=k.excl)
+        c.base_path = getattr(k, 'base_path', None)
+        c.gotype = None
+        out.append(c)
+    return out
+
+
+def _mark_paths(kids, prefix):
+    for k in kids:
+        k.base_path = prefix + [k.name]
+        if k.kids is not None:
+            _mark_paths(k.kids, k.base_path)
+
+
+def positions(prog):
+    """(struct path, index) insertion points: every position of every struct."""
+    out = []
+
+    def walk(kids, path):
+        for i in range(len(kids) + 1):
+            out.append((path, i))
+        for k in kids:
+            if k.kids is not None:
+                walk(k.kids, path + [k.name])
+    walk(prog.kids, [])
+    return out
+
+
+def decorate_excluded(base, name, where, idx, mode, gotype):
+    """Insert an excluded member at position idx of the struct reached by
+    `where`.  mode: 'unexported' (lower-case name) or 'dash' (parquet:"-")."""
+    kids = _clone(base.kids)
+    _mark_paths(kids, [])
+    tgt = kids
+    for n in where:
+        tgt = [k for k in tgt if k.name == n][0].kids
+    if mode == 'unexported':
+        ex = F('hidden' + str(idx), excl=(gotype, None))
+    else:
+        ex = F('Skipped' + str(idx), excl=(gotype, '-'))
+    tgt.insert(idx, ex)
+    return Program(name, kids)
+
+
+def decorate_embed(base, name, start, end, twice=False):
+    """Replace top-level members [start:end) by an embedded struct holding them."""
+    kids = _clone(base.kids)
+    _mark_paths(kids, [])
+    run = kids[start:end]
+    if twice and len(run) >= 1:
+        inner = F('EmbIn', kids=run, embedded=True)
+        emb = F('EmbOut', kids=[inner], embedded=True)
+    else:
+        emb = F('Emb', kids=run, embedded=True)
+    kids[start:end] = [emb]
+    return Program(name, kids)
+
+
+def pair_source(pkg, base, dec, bpk, dpk):
+    """Go source of the pair package's record builder: the same symbolic
+    values go into the base record and the decorated record."""
+    o = ['package %s\n' % pkg, 'import (\n\tb "scratch/%s"\n\td "scratch/%s"\n)\n' % (bpk, dpk)]
+    o.append('const vProgramPair = %s\n' % go_str(base.canon() + ' vs ' + dec.canon()))
+    base_types = {}
+
+    def index(kids, path):
+        for k in kids:
+            base_types[tuple(path + [k.name])] = k
+            if k.kids is not None:
+                index(k.kids, path + [k.name])
+    index(base.kids, [])
+    cnt = itertools.count()
+    L = ['func vPair(maxList, strLen int) (b.Rec, d.Rec) {', '\tvar rb b.Rec', '\tvar rd d.Rec']
+
+    def emit(dkids, bacc, dacc, ind):
+        pad = '\t' * ind
+        for k in dkids:
+            if k.excl is not None:
+                continue  # filled inside the decorated package (unexported members)
+            if k.embedded:
+                emit(k.kids, bacc, dacc + '.' + k.gotype, ind)
+                continue
+            bk = base_types[tuple(k.base_path)]
+            ba, da = bacc + '.' + bk.name, dacc + '.' + k.name
+            i = next(cnt)
+            if k.is_leaf():
+                gen = NONDET[k.typ]
+                if k.rep == 'req':
+                    L.append('%s{ v := %s; %s = v; %s = v }' % (pad, gen, ba, da))
+                elif k.rep == 'opt':
+                    L.append('%sif vChoose(2) == 1 { v := %s; v2 := v; %s = &v; %s = &v2 }' % (pad, gen, ba, da))
+                else:
+                    L.append('%s{ n := vChoose(maxList + 1); for i := 0; i < n; i++ { v := %s; %s = append(%s, v); %s = append(%s, v) } }' % (pad, gen, ba, ba, da, da))
+            else:
+                bt, dt = 'b.' + bk.gotype, 'd.' + k.gotype
+                if k.rep == 'req':
+                    emit(k.kids, ba, da, ind)
+                elif k.rep == 'opt':
+                    L.append('%sif vChoose(2) == 1 {' % pad)
+                    L.append('%s\tvar gb%d %s; var gd%d %s' % (pad, i, bt, i, dt))
+                    emit(k.kids, 'gb%d' % i, 'gd%d' % i, ind + 1)
+                    L.append('%s\t%s = &gb%d; %s = &gd%d' % (pad, ba, i, da, i))
+                    L.append('%s}' % pad)
+                else:
+                    L.append('%s{ n%d := vChoose(maxList + 1); for i%d := 0; i%d < n%d; i%d++ {' % (pad, i, i, i, i, i))
+                    L.append('%s\tvar gb%d %s; var gd%d %s' % (pad, i, bt, i, dt))
+                    emit(k.kids, 'gb%d' % i, 'gd%d' % i, ind + 1)
+                    L.append('%s\t%s = append(%s, gb%d); %s = append(%s, gd%d)' % (pad, ba, ba, i, da, da, i))
+                    L.append('%s} }' % pad)
+    emit(dec.kids, 'rb', 'rd', 1)
+    L += ['\treturn rb, rd', '}\n']
+    o.append('\n'.join(L))
+    return '\n'.join(o)
